@@ -2126,6 +2126,8 @@ fn check_definition<'a>(
     // Collect the free variables of the definition.
     let mut variables = HashSet::new();
     free_variables(&definitions[current_index].2, 0, &mut variables);
+    #[cfg(feature = "verif")]
+    let variables = crate::verif_hooks::iteration_order(variables);
 
     // For each free variable bound by the let, check the corresponding definition.
     for variable in variables {
